@@ -20,6 +20,11 @@ def _replay(modname, prop):
 
 
 SUITES = {
+    'C11': ('adapters.suites_refs', 'two-app projects with cross-app/self relations x rename/delete mutations through AppMutator on real SQLite: '
+                                    'every relation in the signature resolves, database foreign keys point at the renamed tables/columns, fk check passes'),
+    'C14': ('adapters.suites_refs', 'evolve --sql preview vs the execute trace; output identical across PYTHONHASHSEED values (subprocesses)'),
+    'C15': ('adapters.suites_refs', 'purge / DeleteApplication / DeleteModel over 2-4 app projects with prefix-named tables: exactly the named tables and signature entries go'),
+    'C16': ('adapters.suites_refs', 'models split between two SQLite databases by a router x evolutions touching both sides, each database evolved in turn'),
     'C05': ('adapters.suites_sig', 'signature pairs over the field/Meta variant catalog: hinted evolution resolves the diff; '
                                    'eq iff diff empty; self/clone diff empty'),
     'C06': ('adapters.suites_sig', 'signatures through serialize/deserialize, SignatureField JSON, Version.save()/reload on SQLite, v2->v1->v2'),
